@@ -37,7 +37,20 @@ var bytePatterns = []byte{0x00, 0x01, 0x7f, 0x80, 0xfe, 0xff}
 // ConstBytes draws n bytes from boundary patterns.
 func ConstBytes(r *rand.Rand, n int) []byte {
 	bs := make([]byte, n)
-	switch r.Intn(8) {
+	switch r.Intn(10) {
+	case 8: // zero low part, non-zero above (zero in the low 8 bytes / low half only)
+		if n >= 2 {
+			lo := n / 2
+			if n > 8 && r.Intn(2) == 0 {
+				lo = 8
+			}
+			for i := lo; i < n; i++ {
+				bs[i] = byte(r.Intn(256))
+			}
+			bs[lo+r.Intn(n-lo)] |= byte(1 + r.Intn(255))
+		}
+	case 9: // a single bit
+		bs[r.Intn(n)] = 1 << uint(r.Intn(8))
 	case 0: // all zero
 	case 1: // all ones
 		for i := range bs {
@@ -148,7 +161,23 @@ func (g *ExprGen) shiftAmount(w expr.Width) expr.Expr {
 	r := g.R
 	bits := uint64(w) * 8
 	var v uint64
-	switch r.Intn(8) {
+	switch r.Intn(11) {
+	case 8: // huge amounts whose byte count wraps small modulo 256
+		v = 2048*uint64(1+r.Intn(40)) + uint64(r.Intn(int(bits)+8))
+	case 9: // a small amount below high garbage in a constant wider than the operation:
+		// the operation crops its second operand like the first
+		if w < 200 {
+			cw := int(w) + 1 + r.Intn(8)
+			bs := make([]byte, cw)
+			bs[0] = byte(r.Intn(int(bits)%256 + 1))
+			for i := int(w); i < cw; i++ {
+				bs[i] = byte(1 + r.Intn(255))
+			}
+			return expr.NewConst(bs, expr.Width(cw))
+		}
+		v = 1
+	case 10: // symbolic amount wider than the operation
+		return expr.NewRegLoad(expr.NewKey(g.RegKeys[r.Intn(len(g.RegKeys))]), w+expr.Width(1+r.Intn(4)))
 	case 0:
 		v = 0
 	case 1:
@@ -204,7 +233,26 @@ func (g *ExprGen) gen(depth int, lb *int) expr.Expr {
 			} else {
 				b = g.gen(depth-1, lb)
 			}
-			e = expr.NewLess(a, b, g.gen(depth-1, lb), g.gen(depth-1, lb), w)
+			t, f := g.gen(depth-1, lb), g.gen(depth-1, lb)
+			if w > 1 && r.Intn(3) == 0 {
+				// a branch that is an operation narrower than the conditional (the
+				// conditional widens it), with operands wider than the operation
+				op := binOps[r.Intn(len(binOps))]
+				nw := expr.Width(1 + r.Intn(int(w)-1))
+				var y expr.Expr
+				if op == expr.Lsh || op == expr.Rsh {
+					y = g.shiftAmount(nw)
+				} else {
+					y = g.gen(depth-2, lb)
+				}
+				nb := expr.NewBinary(op, g.gen(depth-2, lb), y, nw)
+				if r.Intn(2) == 0 {
+					t = nb
+				} else {
+					f = nb
+				}
+			}
+			e = expr.NewLess(a, b, t, f, w)
 		case k < 9 && !g.NoLoads && !g.NoMem:
 			e = expr.NewMemLoad(expr.NewKey(g.MemKeys[r.Intn(len(g.MemKeys))]), g.gen(depth-1, lb), w)
 		default:
